@@ -249,6 +249,26 @@ def run(ctx):
             P, C = kuhn(rng, *dims, keep=keep)
             if C:
                 kpool.append(_variant(rng, P, C, positive=(rep % 2 == 0)))
+    # meshes with an interior vertex whose number is lower than some border vertex's: the volume -> boundary vertex map is not the identity
+    cubeP = [[0, 0, 0], [2, 0, 0], [2, 2, 0], [0, 2, 0], [0, 0, 2], [2, 0, 2], [2, 2, 2], [0, 2, 2], [1, 1, 1]]
+    cubeT = [[0, 2, 1], [0, 3, 2], [0, 1, 5], [0, 5, 4], [1, 2, 6], [1, 6, 5], [2, 3, 7], [2, 7, 6], [3, 0, 4], [3, 4, 7], [4, 5, 6], [4, 6, 7]]
+    cubeC = [t + [8] for t in cubeT]
+    for src in [(cubeP, cubeC)] + ([kuhn(rng, 2, 2, 2, keep=1.0)] if True else []):
+        for rep in range(3 if thorough else 2):
+            for _try in range(20):
+                Pv, Cv = _variant(rng, src[0], src[1], positive=(rep == 0))
+                used_on_border = set()
+                cnt = {}
+                for c in Cv:
+                    for f in itertools.combinations(sorted(c), 3):
+                        cnt[f] = cnt.get(f, 0) + 1
+                for f, k in cnt.items():
+                    if k == 1:
+                        used_on_border.update(f)
+                interior = [v for v in range(len(Pv)) if v not in used_on_border]
+                if interior and min(interior) < max(used_on_border):
+                    break
+            kpool.append((Pv, Cv))
     for j, (P, C) in enumerate(kpool):
         cases.append({"id": "K-%d" % j, "given": {"P": P, "C": C, "sorted": 1, "family": "K", "container": conts[j % 4]}, "events": _history(rng)})
     small = [c for c in cases if len(c["given"]["C"]) <= 12]
